@@ -6,6 +6,10 @@ import re
 import vlib
 
 
+def _listed_twice(r):
+    return any(r["dup"][f] for f in ("vw", "bw", "req"))
+
+
 def _flag_env(flag_eras):
     return {"C28_FLAG_ERAS": ",".join(flag_eras)}
 
@@ -20,20 +24,26 @@ def _self_test(chk, drv, rows, flag_eras):
                 return dict(r)
         raise vlib.MachineryError("self-test: reference case not in the TLC output")
     acc = find(lambda r: r["accept"] and not r["silent"] and r["ins"] == [["key", 1]] and not r["coll"]
-               and not r["req"] and r["vw"] == [[1, True]] and not r["bw"] and not r["p2"])
+               and not r["req"] and r["vw"] == [[1, True]] and not r["bw"] and not r["p2"] and not _listed_twice(r))
     rej = find(lambda r: not r["accept"] and r["ins"] == [["byron", 2]] and not r["coll"] and not r["req"]
-               and not r["vw"] and r["bw"] == [[2, 1, True]] and not r["p2"])
+               and not r["vw"] and r["bw"] == [[2, 1, True]] and not r["p2"] and not _listed_twice(r))
     # the same two, flagged is_valid = false (replayed in the eras that have the flag only)
     ka, kr = _key(acc) + ":p2invalid", _key(rej) + ":p2invalid"
     facc = find(lambda r: r["p2"] and _key(r) == ka)
     frej = find(lambda r: r["p2"] and _key(r) == kr)
+    # a required signer who never signed, next to one whose witness is listed twice
+    kd = "ins=key1:coll=-:req=1+2:vw=1v*2:bw=-"
+    drej = find(lambda r: r["dup"]["vw"] and not r["p2"] and _key(r) == kd)
+    if drej["accept"]:
+        raise vlib.MachineryError("self-test: the specification accepts %s" % kd)
+    drej["accept"], drej["why"] = True, []
     for x in (acc, facc):
         x["accept"], x["why"] = False, ["input"]
     for x in (rej, frej):
         x["accept"], x["why"] = True, []
     d = vlib.scratch("c28-self-")
     p = os.path.join(d, "flipped.ndjson")
-    vlib.write_ndjson(p, [acc, rej, facc, frej])
+    vlib.write_ndjson(p, [acc, rej, facc, frej, drej])
     probe = vlib.Check(chk.pid, chk.tier, chk.seed)
     vlib.run_driver(probe, drv, [p, "mary,conway,dijkstra"], timeout=120, count=False, env=_flag_env(flag_eras))
     keys = {k for k, _, _ in probe.violations} | {k for _, k, _ in probe.known_hits}
@@ -44,6 +54,8 @@ def _self_test(chk, drv, rows, flag_eras):
     for era in ("mary", "conway", "dijkstra"):
         want.add("era=%s:ins=key1:coll=-:req=-:vw=1v:bw=-:code=accept:spec=reject" % era)
         want.add("era=%s:ins=byron2:coll=-:req=-:vw=-:bw=2.1v:code=reject:spec=accept" % era)
+        if era == "conway":     # (Dijkstra's decoder refuses a tag-258 set with a repeated member)
+            want.add("era=%s:%s:code=reject:spec=accept" % (era, kd))
         if era in flag_eras:
             want.add("era=%s:ins=key1:coll=-:req=-:vw=1v:bw=-:p2invalid:code=accept:spec=reject" % era)
             want.add("era=%s:ins=byron2:coll=-:req=-:vw=-:bw=2.1v:p2invalid:code=reject:spec=accept" % era)
@@ -54,7 +66,8 @@ def _self_test(chk, drv, rows, flag_eras):
     chk.extra["binding_self_test"] = ("the replay rejected the flipped verdicts of (input key1 witnessed by key1) and "
                                       "(Byron input of key 2 with the bootstrap witness of key 2 under other "
                                       "chain code / attributes) in mary, conway and dijkstra, and of the same two "
-                                      "flagged is_valid = false in conway (envelope) and dijkstra (block)")
+                                      "flagged is_valid = false in conway (envelope) and dijkstra (block), and of (required signers 1 "
+                                      "and 2, the witness of 1 listed twice) in conway")
 
 
 def run(chk, replay=None):
@@ -69,7 +82,11 @@ def run(chk, replay=None):
                 "(cases with p2 = TRUE are the same transactions flagged is_valid = false: all of them in the thorough tier, "
                 "in the quick tier every obligation with witnesses of one kind at a time; replayed in Alonzo, Babbage, Conway "
                 "with the envelope's flag false and in Dijkstra, whose envelope cannot say so, flagged the way block decoding "
-                "flags the members of invalid_transactions; key suffix :p2invalid). Every case becomes a real transaction of each era "
+                "flags the members of invalid_transactions; key suffix :p2invalid), multiplicity irrelevant (the mult slice: "
+                "2 and more distinct inputs / collateral outputs / required signers, every subset of the owners' valid witnesses, "
+                "and in each of the three lists at most one element listed 2..MaxMult times, written as the same bytes again: "
+                "key element suffix *n; the verdict is a function of the sets, and the slice provably separates the rule from "
+                "counting listed witnesses and from one-witness-per-listed-signer). Every case becomes a real transaction of each era "
                 "(pre-Alonzo eras: the cases without collateral / required signers) with real ed25519 keys, real "
                 "Byron addresses (root derived by the driver), invalid signature = one flipped bit / other key / "
                 "other message, judged by the signature entries of the era's UtxoValidationRules. A case = (era, "
@@ -84,17 +101,22 @@ def run(chk, replay=None):
         "key addresses take a seeded shape per owner (enterprise / base key-key / base key-script / pointer); Conway and "
         "Dijkstra cases write their sets with tag 258 in half of the cases; witness order is rotated by the seed",
         "a script-locked input puts no obligation on signature validation (script evaluation is another property)",
+        "the witness sets and the required signers are lists on the wire; a transaction that lists an element more than "
+        "once is judged by the sets (a decoder that refuses such a transaction accepts nothing: counted in "
+        "element_listed_more_than_once_refused_by_the_decoder_per_era, not a disagreement)",
         "witnesses and signatures are a phase-1 check (UTXOW): a transaction flagged is_valid = false is accepted by "
         "signature validation exactly when the same transaction unflagged is (FlagIrrelevant); the flagged transactions "
         "carry no redeemers, which the signature rules do not read",
     ]
     cfg = "Witness.cfg" if chk.tier == "quick" else "WitnessThorough.cfg"
-    r = vlib.run_tlc("ledger/Witness", cfg=cfg, timeout=240 if chk.tier == "quick" else 900, workers="auto", deadlock=False,
+    r = vlib.run_tlc("ledger/Witness", cfg=cfg, timeout=300 if chk.tier == "quick" else 1500, workers="auto", deadlock=False,
                      heap=None if chk.tier == "quick" else "6g")
     vlib.tlc_must_pass(r, "Witness")
     chk.add_tlc(cfg, r)
     rows, flag_eras = _rows_of(r)
     chk.extra["flagged_cases_in_the_specification"] = sum(1 for x in rows if x["p2"])
+    chk.extra["cases_with_an_element_listed_more_than_once_in_the_specification"] = \
+        sum(1 for x in rows if _listed_twice(x))
     cases = os.path.join(r.dir, "cases.ndjson")
     vlib.write_ndjson(cases, rows)
     drv = vlib.go_build("c28")
@@ -112,7 +134,7 @@ def run(chk, replay=None):
             vlib.write_ndjson(p, rows)
             vlib.run_driver(chk, drv, [p, obj.get("era", "")], timeout=120, env=_flag_env(flag_eras))
             return
-    vlib.run_driver(chk, drv, [cases], timeout=300 if chk.tier == "quick" else 1500, env=_flag_env(flag_eras))
+    vlib.run_driver(chk, drv, [cases], timeout=300 if chk.tier == "quick" else 2400, env=_flag_env(flag_eras))
     if not chk.violations:
         # (with disagreements on the table the replay is evidently not vacuous,
         # and the reference cases may be the very ones the code gets wrong)
@@ -124,13 +146,14 @@ def run(chk, replay=None):
 _ROW = re.compile(r'^<<"ROW", (".*")>>\s*$')
 _NUM = re.compile(r'^<<"NUMCASES", (\d+)>>\s*$')
 _NUMF = re.compile(r'^<<"NUMFLAGGED", (\d+)>>\s*$')
+_NUMM = re.compile(r'^<<"NUMMULT", (\d+)>>\s*$')
 _FE = re.compile(r'^<<"FLAGERAS", (".*")>>\s*$')
 
 
 def _rows_of(r):
     """The cases TLC printed (one <<"ROW", json>> line per complete case), in a
     canonical order (TLC's workers print in any order)."""
-    rows, num, numf, flag_eras = {}, None, None, None
+    rows, num, numf, numm, flag_eras = {}, None, None, None, None
     for l in r.out.splitlines():
         m = _ROW.match(l)
         if m:
@@ -143,6 +166,9 @@ def _rows_of(r):
         m = _NUMF.match(l)
         if m:
             numf = int(m.group(1))
+        m = _NUMM.match(l)
+        if m:
+            numm = int(m.group(1))
         m = _FE.match(l)
         if m:
             flag_eras = sorted(json.loads(json.loads(m.group(1))))
@@ -152,6 +178,10 @@ def _rows_of(r):
     if not flag_eras or numf is None or flagged != numf or flagged == 0:
         raise vlib.MachineryError("TLC printed %d flagged cases for the eras %r, the specification has %r"
                                   % (flagged, flag_eras, numf))
+    listed = sum(1 for x in rows.values() if _listed_twice(x))
+    if not numm or listed == 0 or listed > numm:
+        raise vlib.MachineryError("TLC printed %d cases with a repeated element, the multiplicity slice has %r cases"
+                                  % (listed, numm))
     return [rows[k] for k in sorted(rows)], flag_eras
 
 
@@ -165,8 +195,17 @@ def _key(r):
     if r.get("ord"):
         ins = [">".join(lk(l) for l in r["ord"])]
     coll = sorted(lk(l) for l in r["coll"])
-    req = [str(k) for k in sorted(r["req"])]
-    vw = ["%d%s" % (w[0], "v" if w[1] else "x") for w in sorted(r["vw"], key=lambda w: (w[0], not w[1]))]
-    bw = ["%d.%d%s" % (w[0], w[1], "v" if w[2] else "x") for w in sorted(r["bw"], key=lambda w: (w[0], w[1], not w[2]))]
+    dup = r.get("dup") or {}
+    tv = {(d[0], d[1]): d[2] for d in dup.get("vw", [])}
+    tb = {(d[0], d[1], d[2]): d[3] for d in dup.get("bw", [])}
+    tr = {d[0]: d[1] for d in dup.get("req", [])}
+
+    def star(n):
+        return "*%d" % n if n and n > 1 else ""
+    req = [str(k) + star(tr.get(k)) for k in sorted(r["req"])]
+    vw = ["%d%s" % (w[0], "v" if w[1] else "x") + star(tv.get((w[0], w[1])))
+          for w in sorted(r["vw"], key=lambda w: (w[0], not w[1]))]
+    bw = ["%d.%d%s" % (w[0], w[1], "v" if w[2] else "x") + star(tb.get((w[0], w[1], w[2])))
+          for w in sorted(r["bw"], key=lambda w: (w[0], w[1], not w[2]))]
     return "ins=%s:coll=%s:req=%s:vw=%s:bw=%s%s" % (j(ins), j(coll), j(req), j(vw), j(bw),
                                                     ":p2invalid" if r.get("p2") else "")
